@@ -59,6 +59,21 @@ func keyStr(info *types.Info, e ast.Node) string {
 	return s
 }
 
+// modFunc: the module-relative full name of a function of this module ("" for anything else). Packages checked from source
+// carry their directory as path, packages seen through an import carry the module path: both are reduced to the directory.
+func modFunc(f *types.Func) string {
+	if f == nil || f.Pkg() == nil {
+		return ""
+	}
+	p := f.Pkg().Path()
+	const mod = "github.com/gontainer/gontainer"
+	if p != mod && !strings.HasPrefix(p, mod+"/") && !strings.HasPrefix(p, "internal/") && p != "." {
+		return ""
+	}
+	n := strings.ReplaceAll(f.FullName(), mod+"/", "")
+	return strings.ReplaceAll(n, mod+".", "./")
+}
+
 func leanStr(s string) string {
 	s = strings.ReplaceAll(s, `\`, `\\`)
 	s = strings.ReplaceAll(s, `"`, `\"`)
@@ -805,6 +820,9 @@ func main() {
 	var mapRanges, panics, loops, ambient, ambientAPIs, stepNames, sorts, mapClasses []string
 	guarded := map[string]int{}
 	callGraph := map[string][]string{}
+	var mustSites [][2]string            // (enclosing function, site key) of every Must* call
+	usedFromFuncs := map[string]bool{}   // module functions referred to from a function body other than init()
+	usedAtPkgLevel := map[string]bool{}  // … from a package-level variable initialiser or from init()
 	for _, d := range dirs {
 		pkgs, err := parser.ParseDir(fset, d, func(fi os.FileInfo) bool {
 			return !strings.HasSuffix(fi.Name(), "_test.go") && !(d == "internal/gontainer" && fi.Name() == "gontainer.go")
@@ -844,6 +862,16 @@ func main() {
 			}
 			for _, f := range files {
 				for _, decl := range f.Decls {
+					if gd, ok := decl.(*ast.GenDecl); ok && gd.Tok == token.VAR {
+						ast.Inspect(gd, func(n ast.Node) bool {
+							if id, ok := n.(*ast.Ident); ok {
+								if fo, ok := info.Uses[id].(*types.Func); ok && modFunc(fo) != "" {
+									usedAtPkgLevel[modFunc(fo)] = true
+								}
+							}
+							return true
+						})
+					}
 					fd, ok := decl.(*ast.FuncDecl)
 					if !ok || fd.Body == nil {
 						continue
@@ -866,6 +894,19 @@ func main() {
 							return true
 						})
 					}
+					isInit := fd.Recv == nil && fd.Name.Name == "init"
+					ast.Inspect(fd.Body, func(n ast.Node) bool {
+						if id, ok := n.(*ast.Ident); ok {
+							if f, ok := info.Uses[id].(*types.Func); ok && modFunc(f) != "" {
+								if isInit {
+									usedAtPkgLevel[modFunc(f)] = true
+								} else {
+									usedFromFuncs[modFunc(f)] = true
+								}
+							}
+						}
+						return true
+					})
 					w := &walker{info: info, fn: fn, fd: fd, aliases: collectAliases(fd)}
 					ast.Inspect(fd.Body, func(n ast.Node) bool {
 						if n == nil {
@@ -930,7 +971,11 @@ func main() {
 							if sel, ok := x.Fun.(*ast.SelectorExpr); ok {
 								obj = info.Uses[sel.Sel]
 								if strings.HasPrefix(sel.Sel.Name, "Must") {
-									panics = append(panics, fn+": "+keyStr(info, x.Fun))
+									selfMod := ""
+									if o, ok := info.Defs[fd.Name].(*types.Func); ok {
+										selfMod = modFunc(o)
+									}
+									mustSites = append(mustSites, [2]string{selfMod, fn + ": " + keyStr(info, x.Fun)})
 								}
 								if callee == "strings.Repeat" {
 									panics = append(panics, fn+": strings.Repeat")
@@ -964,6 +1009,15 @@ func main() {
 					})
 				}
 			}
+		}
+	}
+	// a Must* call inside a function that nothing but package-level initialisers (and init) refers to runs before main():
+	// if it panics, every run of the tool fails the same way — it does not depend on the input
+	for _, ms := range mustSites {
+		if ms[0] != "" && usedAtPkgLevel[ms[0]] && !usedFromFuncs[ms[0]] {
+			guarded["Must call in a function used only by package-level initialisers"]++
+		} else {
+			panics = append(panics, ms[1])
 		}
 	}
 	// functions on a cycle of the static call graph (recursion, direct or mutual)
